@@ -4,7 +4,7 @@
 (* the T3 numeral <<day, second, nanosecond>> on the local time line of its calendar. *)
 (* An amount k of a unit arrives as digits: q (BigInt, whole days), then r, f as in    *)
 (* T3!AmountToT3, so that k units = q days + (r, f).                                    *)
-EXTENDS Integers, Sequences, TLC, Json, IOUtils, T3, BigInt
+EXTENDS Integers, Sequences, TLC, Json, IOUtils, T3, BigInt, DateArith
 
 VARIABLES l
 Events == JsonDeserialize(IOEnv.TRACE_FILE)
@@ -41,14 +41,17 @@ StepTime(e) ==
                        /\ (Has(e, "res") => Check(e.res = <<day, sub[2], sub[3]>>, "date_time_plus_adds_on_local_time_line"))
                        /\ (Has(e, "res") => Check(e.res_cal = e.cal, "date_time_plus_keeps_calendar"))
     [] e.op = "ldt_period" ->
-         \* a period of weeks/days and time units: date units first (weeks, days), then each time unit with carry
-         LET dsum == e.weeks * 7 + e.days
-             t0 == <<e.day + dsum, e.t[1], e.t[2]>>
-             tot == Add3(Add3(Add3(Add3(Add3(Add3(t0, <<0, 0, 0>>),
-                       AmountToT3("hours", e.h)), AmountToT3("minutes", e.mi)), AmountToT3("seconds", e.s)),
+         \* a period is applied date units first (years, months, weeks, days - in that order), then the time units with carry
+         LET afterYears == IF e.arith /\ e.years # 0 THEN PlusYears(e.cal, e.ymd[1], e.ymd[2], e.ymd[3], e.years) ELSE e.ymd
+             afterMonths == IF e.arith /\ e.months # 0 THEN PlusMonths(e.cal, afterYears[1], afterYears[2], afterYears[3], e.months) ELSE afterYears
+             day0 == IF e.arith /\ (e.years # 0 \/ e.months # 0) THEN DayOf(e.cal, afterMonths[1], afterMonths[2], afterMonths[3]) ELSE e.day
+             dsum == e.weeks * 7 + e.days
+             t0 == <<day0 + dsum, e.t[1], e.t[2]>>
+             tot == Add3(Add3(Add3(Add3(Add3(t0, AmountToT3("hours", e.h)), AmountToT3("minutes", e.mi)), AmountToT3("seconds", e.s)),
                        AmountToT3("milliseconds", e.ms)), Add3(AmountToT3("ticks", e.tk), AmountToT3("nanoseconds", e.ns)))
-         IN  IF tot[1] < e.min_day \/ tot[1] > e.max_day \/ e.day + dsum < e.min_day \/ e.day + dsum > e.max_day
-             THEN Check(Has(e, "exc") \/ TRUE, "period_out_of_range")
+             yrOk == ~e.arith \/ (YearInRange(e.cal, afterYears[1]) /\ YearInRange(e.cal, afterMonths[1]))
+         IN  IF ~yrOk \/ tot[1] < e.min_day \/ tot[1] > e.max_day \/ day0 + dsum < e.min_day \/ day0 + dsum > e.max_day
+             THEN TRUE
              ELSE /\ Check(~Has(e, "exc"), "date_time_plus_period_in_range_must_not_raise")
                   /\ (Has(e, "res") => Check(e.res = tot, "date_time_plus_period_date_units_then_time_units"))
     [] e.op = "adjust" ->
